@@ -135,3 +135,65 @@ Section ElemFromRef.
     - unfold fl_at0. rewrite (ref_fl_snd t a fc Ht). reflexivity.
   Qed.
 End ElemFromRef.
+
+(* ---------- copies of an element and assignment between elements ---------- *)
+Section ElemCopies.
+  Variable L : list param.
+  Hypothesis Hwf : wf_plist L = true.
+  Hypothesis Hct : all_ctriv L = true.
+  Hypothesis Hdt : all_dtriv L = true.
+
+  (* an element that holds the tuple t: its block has the tuple at offset 0 and its reference
+     is the field table of that tuple *)
+  Definition elem_holds (e : elem) (t : tuple) : Prop :=
+    elem_at L (e_mem e) 0 t /\ e_fl e = ref_fl L t 0.
+
+  Lemma SA_div0 : (SA L | 0). Proof. apply Z.divide_0_r. Qed.
+
+  (* copy construction: the copy holds the same tuple in a block of its own, with the
+     allocator it was given; the source is not touched (it is not even an output) *)
+  Theorem elem_copy_spec src t fc aid junk nb : tuple_ok L fc 0 t -> elem_holds src t ->
+    let '(d, evs) := elem_copy L src aid junk nb in
+    elem_holds d t /\ e_bid d = Some nb /\ e_aid d = aid /\ e_units d = e_units src.
+  Proof.
+    intros Ht [He Hfl]. unfold elem_copy, store_and_load.
+    rewrite construct_fields_triv by exact Hct. rewrite Hfl.
+    pose proof (elem_from_ref_spec L Hwf Hct false (e_mem src) 0 t fc (bidn (e_bid src)) aid junk nb Ht He
+                  ltac:(lia) SA_div0) as H.
+    unfold elem_from_ref, store_and_load in H. rewrite construct_fields_triv in H by exact Hct.
+    cbn [e_mem e_fl e_bid e_aid e_units] in *.
+    destruct H as (_ & H2 & H3 & _). repeat split; assumption.
+  Qed.
+
+  (* copy assignment on the general (re-allocating) path, into ANY target - whatever it held,
+     moved-from or not, whatever its size: afterwards it holds the source's tuple *)
+  Theorem elem_copy_assign_general_spec pocca ae d src t fc junk nb :
+    tuple_ok L fc 0 t -> elem_holds src t ->
+    (fixed_or_plain L && (negb pocca || ae) && match e_bid d with Some _ => true | None => false end) = false ->
+    let '(d', evs, nb') := elem_copy_assign pocca ae L d src junk nb in
+    elem_holds d' t /\ e_bid d' = Some nb /\ e_aid d' = (if pocca then e_aid src else e_aid d) /\
+    e_units d' = e_units src.
+  Proof.
+    intros Ht [He Hfl] Hpath. unfold elem_copy_assign. rewrite Hpath.
+    assert (Hd : elem_destruct L d = (d, [])).
+    { unfold elem_destruct. destruct (e_bid d); [rewrite Hdt|]; reflexivity. }
+    rewrite Hd. unfold store_and_load. rewrite construct_fields_triv by exact Hct. rewrite Hfl.
+    pose proof (elem_from_ref_spec L Hwf Hct false (e_mem src) 0 t fc (bidn (e_bid src)) 0 junk nb Ht He
+                  ltac:(lia) SA_div0) as H.
+    unfold elem_from_ref, store_and_load in H. rewrite construct_fields_triv in H by exact Hct.
+    cbn [e_mem e_fl e_bid e_aid e_units] in *.
+    destruct H as (_ & H2 & H3 & _). repeat split; assumption.
+  Qed.
+
+  (* stealing move assignment: the target takes over the source's block and tuple, the
+     source is left without memory *)
+  Theorem elem_steal_spec pocma d src t : elem_holds src t ->
+    let '(d', src', evs) := elem_steal pocma L d src in
+    elem_holds d' t /\ e_bid d' = e_bid src /\ e_bid src' = None /\
+    e_aid d' = (if pocma then e_aid src else e_aid d).
+  Proof.
+    intros [He Hfl]. unfold elem_steal.
+    destruct (elem_destruct L d) as [d1 e1]. cbn [e_mem e_fl e_bid e_aid]. unfold elem_holds.
+    cbn [e_mem e_fl]. repeat split; assumption.
+  Qed.
+End ElemCopies.
